@@ -35,38 +35,40 @@ theorem C05_next_delivers_lookahead (lx : Lexer σ τ) (b : Buf σ τ) (hb : lx.
   have : ¬ lx.len ≤ lx.cursor.byte := by omega
   simp [Lexer.next, this, hb, Lexer.tokenSpan]
 
-/-- Operations inside a fork act on the clone only: after the matching `]` the
-interpreter continues with the original stack, whatever the (fork-free) body did. -/
-theorem C05_fork_frame (E : LexEnv Nat Tok) (top : Fam.Lex.Lx) (rest : List Fam.Lex.Lx)
-    (body ops : List Fam.Lex.Op)
-    (hbody : ∀ op ∈ body, op ≠ .forkBegin ∧ op ≠ .forkEnd) :
-    ∃ pre, Fam.Lex.runHistory E (top :: rest) (.forkBegin :: body ++ .forkEnd :: ops)
-      = pre ++ Fam.Lex.runHistory E (top :: rest) ops ∧ pre.length = body.length + 2 := by
-  have key : ∀ (c : Fam.Lex.Lx) (body : List Fam.Lex.Op),
-      (∀ op ∈ body, op ≠ .forkBegin ∧ op ≠ .forkEnd) →
-      ∃ pre, Fam.Lex.runHistory E (c :: top :: rest) (body ++ .forkEnd :: ops)
-        = pre ++ Fam.Lex.runHistory E (top :: rest) ops ∧ pre.length = body.length + 1 := by
+/-- Operations inside a fork act on the clone only: after the matching `forkEnd`
+the interpreter continues with the original stack, whatever the (fork-free)
+body did — for every scanner, filter table and token type. -/
+theorem C05_fork_frame (top : Lexer σ τ) (rest : List (Lexer σ τ))
+    (body ops : List (LexOps.Op τ))
+    (hbody : ∀ op ∈ body, (∀ (h : op = .forkBegin), False) ∧ (∀ (h : op = .forkEnd), False)) :
+    ∃ pre, LexOps.exec E (top :: rest) (.forkBegin :: body ++ .forkEnd :: ops)
+      = pre ++ LexOps.exec E (top :: rest) ops ∧ pre.length = body.length + 2 := by
+  have key : ∀ (c : Lexer σ τ) (body : List (LexOps.Op τ)),
+      (∀ op ∈ body, (∀ (h : op = .forkBegin), False) ∧ (∀ (h : op = .forkEnd), False)) →
+      ∃ pre, LexOps.exec E (c :: top :: rest) (body ++ .forkEnd :: ops)
+        = pre ++ LexOps.exec E (top :: rest) ops ∧ pre.length = body.length + 1 := by
     intro c body
     induction body generalizing c with
     | nil =>
       intro _
-      refine ⟨[("-@" ++ Fam.Lex.stateObs top)], ?_, rfl⟩
-      simp [Fam.Lex.runHistory]
+      refine ⟨[(.unit, top)], ?_, rfl⟩
+      simp [LexOps.exec]
     | cons op body ih =>
       intro h
       have hop := h op (by simp)
-      have hrest : ∀ o ∈ body, o ≠ .forkBegin ∧ o ≠ .forkEnd := fun o ho => h o (by simp [ho])
+      have hrest : ∀ o ∈ body, (∀ (h : o = .forkBegin), False) ∧ (∀ (h : o = .forkEnd), False) :=
+        fun o ho => h o (by simp [ho])
       cases op with
-      | forkBegin => exact absurd rfl hop.1
-      | forkEnd => exact absurd rfl hop.2
+      | forkBegin => exact absurd rfl (fun e => hop.1 e)
+      | forkEnd => exact absurd rfl (fun e => hop.2 e)
       | _ =>
         all_goals
-          simp only [List.cons_append, Fam.Lex.runHistory]
+          simp only [List.cons_append, LexOps.exec]
           obtain ⟨pre, hp, hl⟩ := ih _ hrest
           exact ⟨_ :: pre, by rw [hp]; rfl, by simp [hl]⟩
   obtain ⟨pre, hp, hl⟩ := key top body hbody
-  refine ⟨("-@" ++ Fam.Lex.stateObs top) :: pre, ?_, by simp [hl]⟩
-  simp only [Fam.Lex.runHistory, List.cons_append]
+  refine ⟨(.unit, top) :: pre, ?_, by simp [hl]⟩
+  simp only [LexOps.exec, List.cons_append]
   rw [hp]
 
 /-- Non-vacuity of (1)/(2): a lexer holding a lookahead inside the text. -/
